@@ -419,3 +419,42 @@ def check(P: Project, R: Report) -> None:
     decodes = [c for c in walk_local(pf.node) if isinstance(c, ast.Call) and isinstance(c.func, ast.Attribute) and c.func.attr == "decode"]
     R.ob("R6", "no stateless per-chunk decode (httpx's aiter_text decodes incrementally)", not decodes and "aiter_text" in ast.unparse(loop.iter), pf.where, "")
     grammar_rule(P, R, A.MOD_SSE, "R6", "")
+    from .c11 import blank_line_resets_event
+
+    blank_line_resets_event(P, R, A.MOD_SSE, "R6")
+
+    # ------------------------------------------------------------------ R7: what is parsed off the event stream is delivered
+    R.rule("R7", "server messages on the event stream are delivered once: every path of the message-event handler that has parsed a message either routes it to the read stream or hands it to the waiter of a pending request; the only path that may let it go is the one for an answer whose waiter is already done (a hit in the pending table)")
+    senders = {f.name for f in meths.values() if any(isinstance(c, ast.Call) and call_name(c) in incoming_send_calls(P, ci) for c in walk_local(f.node))}
+    handlers = [f for f in meths.values() if f.name not in senders and any(isinstance(c, ast.Call) and call_name(c).split(".")[-1] == "loads" for c in walk_local(f.node))
+                and any(isinstance(c, ast.Call) and call_name(c).startswith("self.") and call_name(c)[5:] in senders for c in walk_local(f.node))]
+    R.need(handlers, "anchor: no event handler that parses a message and routes it")
+    for hf in handlers:
+        R.fn(hf.fq)
+
+        def hev(call, st, an, hf=hf):
+            nm = call_name(call)
+            if nm.split(".")[-1] == "loads":
+                return "parse"
+            if nm.startswith("self.") and nm[5:] in senders:
+                return "route"
+            if nm.endswith((".set_result", ".put_nowait", ".put")):
+                return "handoff"
+            return None
+
+        ha, ho = run_paths(hf.node, event_of=hev, fallible=False)
+        n_drop = 0
+        for st, node in [(s_, n_) for s_, n_ in ho.ret] + [(s_, hf.node) for s_ in ho.normal]:
+            if "parse" not in st.events or "route" in st.events or "handoff" in st.events:
+                continue
+            pend = [l for l in st.lits if " in self._pending_requests" in l and " not in " not in l]
+            # … or the hit established by what the lookup gave back: `fut = self._pending_requests.pop(k, None)` … `fut is not None`
+            for l in st.lits:
+                t_ = l[:-len(" is not None")] if l.endswith(" is not None") else (l if not l.startswith("not ") and " " not in l else None)
+                if t_ and "self._pending_requests" in ha.origin(t_):
+                    pend.append(l)
+            n_drop += 1
+            R.ob("R7", f"{hf.qual}: a parsed message is let go only as the answer of a pending request whose waiter is done", bool(pend), f"{hf.module.rel}:{getattr(node, 'lineno', hf.node.lineno)}",
+                 f"a path parses a message and returns without routing it or handing it to a waiter, under {sorted(l[:60] for l in st.lits if 'self.' in l)[:4]}: a message the server sent on the event stream (a request of its own whose id happens to be in that table, a notification) is never delivered",
+                 sample=f"R7 {hf.qual}: undelivered only under {pend[:1]}")
+        R.ob("R7", f"{hf.qual}: some path delivers", any("route" in st.events for st, _n in ho.ret) or any("route" in st.events for st in ho.normal), hf.where, "")
